@@ -61,6 +61,12 @@ def gen(stream, rng):
                        per_model_multi=cf['tie'], keep_kinds=(TRIGGER, MAY))
     if cf['nested']:
         anested.impose_tree(d, rng)
+        # `model.to(<state>)` — the hierarchical classes' own helper for going to a state — between the triggers (a
+        # separate generator: the histories of the other commands stay what they were)
+        r2 = random.Random('C07/to/%d/%d' % (len(d.states), len(d.history)) + repr(d.history[:3]))
+        if r2.random() < 0.4:
+            for _ in range(r2.randint(1, 2)):
+                d.history.insert(r2.randint(0, len(d.history)), (anested.TO, r2.choice(d.models), r2.randrange(len(d.states))))
     return d
 
 
